@@ -447,6 +447,26 @@ Section Frag.
 
   Definition pending (s : cst) : cst * bool := match parsedSig s with [] => (s, true) | _ => check_sig s end.
 
+  Definition data_part (rec : cst -> bytes -> bytes * rerr * cst) (s3 : cst) (sz : Z) (data : bytes) : bytes * rerr * cst :=
+    let n := Z.of_nat (List.length data) in
+    if (sz <? n)%Z then
+      let d := firstn (Z.to_nat sz) data in
+      let '(out, e, s5) := rec (hash_data (set_left s3 0) d) (skipn (Z.to_nat sz) data) in (d ++ out, e, s5)
+    else (data, E_None, hash_data (set_left s3 (sz - n)) data).
+
+
+  Definition final_part (s2 : cst) (sig : bytes) : bytes * rerr * cst :=
+    let s3 := set_parsed s2 sig in
+    let '(s4, ok2) := check_sig (reset_hash s3) in
+    if negb ok2 then ([], E_SigMismatch, s4) else
+    match trailer with
+    | Some t =>
+        if negb (beq (trailer_sum t (cbuf s4)) (parsedChecksum s4)) then ([], E_BadDigest, s4)
+        else if negb (beq (trailer_signature sha256 hmac256 hex key stsTrailer t (prevSig s4) (parsedChecksum s4)) (trailerSig s4)) then ([], E_SigMismatch, s4)
+        else ([], E_EOF, s4)
+    | None => ([], E_EOF, s4)
+    end.
+
   Definition par_body (rec : cst -> bytes -> bytes * rerr * cst) (s : cst) (p : bytes) : bytes * rerr * cst :=
     let '(s1, ok) := pending s in
     if negb ok then ([], E_SigMismatch, s1) else
@@ -454,26 +474,9 @@ Section Frag.
     | PH_skip s2 => ([], E_None, set_left s2 0)
     | PH_err e => ([], e, s1)
     | PH_ok s2 size sig off =>
-      let s3 := set_parsed s2 sig in
-      if (size =? 0)%Z then
-        let '(s4, ok2) := check_sig (reset_hash s3) in
-        if negb ok2 then ([], E_SigMismatch, s4) else
-        match trailer with
-        | Some t =>
-            if negb (beq (trailer_sum t (cbuf s4)) (parsedChecksum s4)) then ([], E_BadDigest, s4)
-            else if negb (beq (trailer_signature sha256 hmac256 hex key stsTrailer t (prevSig s4) (parsedChecksum s4)) (trailerSig s4)) then ([], E_SigMismatch, s4)
-            else ([], E_EOF, s4)
-        | None => ([], E_EOF, s4)
-        end
-      else
-        if (off <? 0)%Z || (Z.of_nat (List.length p) <? off)%Z then ([], E_Panic, s3) else
-        let data := skipn (Z.to_nat off) p in
-        let n := Z.of_nat (List.length data) in
-        if (size <? n)%Z then
-          let d := firstn (Z.to_nat size) data in
-          let '(out, e, s5) := rec (hash_data (set_left s3 0) d) (skipn (Z.to_nat size) data) in
-          (d ++ out, e, s5)
-        else (data, E_None, hash_data (set_left s3 (size - n)) data)
+      if (size =? 0)%Z then final_part s2 sig
+      else if (off <? 0)%Z || (Z.of_nat (List.length p) <? off)%Z then ([], E_Panic, set_parsed s2 sig)
+      else data_part rec (set_parsed s2 sig) size (skipn (Z.to_nat off) p)
     end.
 
   Lemma par_S : forall f s p, par (S f) s p = par_body (par f) s p.
@@ -545,6 +548,12 @@ Section Frag.
     - unfold on_eof. destruct (isEOF s); discriminate.
   Qed.
 
+  Lemma final_part_left : forall s2 sg l, nrm (final_part (set_left s2 l) sg) = nrm (final_part s2 sg).
+  Proof.
+    intros s2 sg l. unfold final_part, SignedChunk.check_sig, reset_hash, set_parsed, set_left. proj. destruct (beq _ sg); cbn [negb]; [|reflexivity].
+    destruct trailer as [t|]; [|reflexivity]. destruct (negb (beq _ (parsedChecksum s2))); [reflexivity|]. destruct (negb (beq _ (trailerSig s2))); reflexivity.
+  Qed.
+
   Lemma par_body_left : forall rec s l p, nrm (par_body rec (set_left s l) p) = nrm (par_body rec s p).
   Proof.
     intros rec s l p. unfold par_body. rewrite pending_set_left. destruct (pending s) as [s1 ok]. cbn [fst snd].
@@ -552,9 +561,8 @@ Section Frag.
     destruct (parse_header s1 p) as [s2|e|s2 sz sg off] eqn:Eph; [reflexivity| |].
     { destruct e; try reflexivity. exfalso. exact (parse_header_err _ _ Eph). }
     destruct (sz =? 0)%Z.
-    - unfold SignedChunk.check_sig, reset_hash, set_parsed, set_left. proj. destruct (beq _ sg); cbn [negb]; [|reflexivity].
-      destruct trailer as [t|]; [|reflexivity]. destruct (negb (beq _ (parsedChecksum s2))); [reflexivity|]. destruct (negb (beq _ (trailerSig s2))); reflexivity.
-    - destruct ((off <? 0)%Z || _); [reflexivity|]. destruct (sz <? _)%Z; reflexivity.
+    - apply final_part_left.
+    - destruct ((off <? 0)%Z || _); [reflexivity|]. unfold data_part. destruct (sz <? _)%Z; reflexivity.
   Qed.
 
   Lemma par_left : forall f s l p, nrm (par f (set_left s l) p) = nrm (par f s p).
@@ -578,7 +586,7 @@ Section Frag.
   Proof.
     intros rec1 rec2 s p Hrec. unfold par_body. destruct (pending s) as [s1 ok]. destruct (negb ok); [reflexivity|].
     destruct (parse_header s1 p) as [s2|e|s2 sz sg off] eqn:Eph; [reflexivity|reflexivity|].
-    destruct (sz =? 0)%Z eqn:Ez; [reflexivity|]. destruct ((off <? 0)%Z || _) eqn:Eo; [reflexivity|].
+    destruct (sz =? 0)%Z eqn:Ez; [reflexivity|]. destruct ((off <? 0)%Z || _) eqn:Eo; [reflexivity|]. unfold data_part.
     destruct (sz <? _)%Z eqn:El; [|reflexivity]. rewrite Hrec; [reflexivity|].
     destruct (parse_header_ok_size _ _ _ _ _ _ Eph) as [H0|Hpos]; [subst sz; discriminate Ez|].
     apply Z.ltb_lt in El. rewrite !skipn_length in *. lia.
@@ -617,12 +625,14 @@ Section Frag.
   Lemma firstn_app_ge : forall (n : nat) (a b : bytes), (List.length a <= n)%nat -> firstn n (a ++ b) = a ++ firstn (n - List.length a) b.
   Proof. intros n a b H. rewrite firstn_app. rewrite firstn_all2 by lia. reflexivity. Qed.
 
-  Definition data_part (rec : cst -> bytes -> bytes * rerr * cst) (s3 : cst) (sz : Z) (data : bytes) : bytes * rerr * cst :=
-    let n := Z.of_nat (List.length data) in
-    if (sz <? n)%Z then
-      let d := firstn (Z.to_nat sz) data in
-      let '(out, e, s5) := rec (hash_data (set_left s3 0) d) (skipn (Z.to_nat sz) data) in (d ++ out, e, s5)
-    else (data, E_None, hash_data (set_left s3 (sz - n)) data).
+  Lemma data_part_left : forall rec s3 l sz D, data_part rec (set_left s3 l) sz D = data_part rec s3 sz D.
+  Proof. reflexivity. Qed.
+  Lemma data_part_fuel : forall f1 f2 s3 sz D, (0 < sz)%Z -> (List.length D <= f1)%nat -> (List.length D <= f2)%nat ->
+    data_part (par f1) s3 sz D = data_part (par f2) s3 sz D.
+  Proof.
+    intros f1 f2 s3 sz D Hp H1 H2. unfold data_part. destruct (sz <? Z.of_nat (List.length D))%Z eqn:E; [|reflexivity].
+    apply Z.ltb_lt in E. rewrite (par_fuel f1 f2); [reflexivity| |]; rewrite skipn_length; lia.
+  Qed.
 
   Lemma hash_hash : forall s l x y, hash_data (hash_data (set_left s l) x) y = set_left (hash_data (set_left s 0) (x ++ y)) l.
   Proof. intros s l x y. unfold hash_data, set_left. proj. rewrite !app_assoc. reflexivity. Qed.
@@ -654,6 +664,107 @@ Section Frag.
       cbn [nrm] in Hn |- *. inversion Hn; subst. rewrite <- app_assoc. reflexivity.
     - apply Z.ltb_ge in E1. replace (sz - Z.of_nat (List.length da) <? Z.of_nat (List.length b))%Z with false by (symmetry; apply Z.ltb_ge; lia).
       cbn [nrm]. f_equal. f_equal. unfold S1, hash_data, set_left. proj. rewrite <- !app_assoc. f_equal. lia.
+  Qed.
+
+  Lemma final_branch_terminal : forall s2 sg, exists (o : bytes) (e : rerr) (sx : cst), final_part s2 sg = (o, e, sx) /\ e <> E_None.
+  Proof.
+    intros s2 sg. unfold final_part. cbv zeta. destruct (check_sig (reset_hash (set_parsed s2 sg))) as [s4 ok2]. destruct (negb ok2); [do 3 eexists; split; [reflexivity|discriminate]|].
+    destruct trailer as [t|]; [|do 3 eexists; split; [reflexivity|discriminate]].
+    destruct (negb (beq _ (parsedChecksum s4))); [do 3 eexists; split; [reflexivity|discriminate]|].
+    destruct (negb (beq _ (trailerSig s4))); do 3 eexists; (split; [reflexivity|discriminate]).
+  Qed.
+
+  Lemma par_split : forall b f a s f', isEOF s = false -> (List.length a < f)%nat -> (List.length (a ++ b) + 1 < f')%nat ->
+    match par f s a with
+    | (o1, E_None, s1) => (stash_len s1 <= 1024)%nat ->
+                          nrm (par f' s (a ++ b)) = nrm (let '(o2, e2, s2) := read s1 b false in (o1 ++ o2, e2, s2))
+    | (o1, e1, _) => exists sx, par f' s (a ++ b) = (o1, e1, sx)
+    end.
+  Proof.
+    intros b. induction f as [|f IH]; intros a s f' Heof Hf Hf'; [lia|]. destruct f' as [|f']; [lia|]. rewrite !par_S. unfold par_body.
+    destruct (pending s) as [s1 ok] eqn:Epend. destruct (pending_fields _ _ _ Epend) as [Hst [Hfh [He1 [Hl Hps]]]]. rewrite Heof in He1.
+    destruct ok; cbn [negb]; [|eexists; reflexivity]. specialize (Hps eq_refl).
+    rewrite !parse_header_h. destruct (Nat.ltb 1024 (stash_len s1)) eqn:Elim; [eexists; reflexivity|].
+    set (st := stash_bytes s1). replace (st ++ a ++ b) with ((st ++ a) ++ b) by (symmetry; apply app_assoc).
+    destruct (hparse (firstHdr s1) (st ++ a)) as [r|] eqn:Eh.
+    - rewrite (hparse_mono _ _ _ b Eh). destruct r as [e|sz sg k|sg tr k].
+      + cbn [apply_h]. destruct e; try (eexists; reflexivity). exfalso. exact (hparse_err_some _ _ _ Eh eq_refl).
+      + cbn [apply_h].
+        destruct (hparse_data_inv _ _ _ _ _ Eh) as [a1 [r1 [Heq [Hk [_ [_ [Hneg [Hz _]]]]]]]].
+        assert (Hkle : (k <= List.length st + List.length a)%nat) by (rewrite <- app_length, Heq, app_length, <- Hk; lia).
+        rewrite Hz. fold st. change (stash_len s1) with (List.length st) in *.
+        set (off := (Z.of_nat k - Z.of_nat (List.length st))%Z).
+        destruct (off <? 0)%Z eqn:Eo; cbn [orb]; [eexists; reflexivity|]. apply Z.ltb_ge in Eo.
+        replace (Z.of_nat (List.length a) <? off)%Z with false by (symmetry; apply Z.ltb_ge; unfold off; lia).
+        replace (Z.of_nat (List.length (a ++ b)) <? off)%Z with false by (symmetry; apply Z.ltb_ge; rewrite app_length; unfold off; lia).
+        rewrite skipn_app_le by (unfold off; lia).
+        set (da := skipn (Z.to_nat off) a).
+        match goal with |- context [data_part (par f) ?S3 sz da] => set (s3 := S3) end.
+        assert (Hs3eof : isEOF s3 = false) by (unfold s3, set_parsed; proj; exact He1).
+        apply Z.ltb_ge in Hneg. apply Z.eqb_neq in Hz.
+        unfold data_part at 1. destruct (sz <? Z.of_nat (List.length da))%Z eqn:El.
+        * apply Z.ltb_lt in El. unfold data_part.
+          replace (sz <? Z.of_nat (List.length (da ++ b)))%Z with true by (symmetry; apply Z.ltb_lt; rewrite app_length; lia).
+          rewrite firstn_app_le, skipn_app_le by lia.
+          set (d := firstn (Z.to_nat sz) da). set (a' := skipn (Z.to_nat sz) da).
+          assert (Hlda : List.length da = (List.length a - Z.to_nat off)%nat) by (unfold da; apply skipn_length).
+          assert (Hla' : (List.length a' < List.length a)%nat) by (unfold a'; rewrite skipn_length; lia).
+          specialize (IH a' (hash_data (set_left s3 0) d) f').
+          assert (Hfa : (List.length (a' ++ b) + 1 < f')%nat) by (rewrite app_length in *; lia).
+          specialize (IH Hs3eof ltac:(lia) Hfa).
+          destruct (par f (hash_data (set_left s3 0) d) a') as [[o e] sx].
+          destruct e; try (destruct IH as [sy Hy]; rewrite Hy; eexists; reflexivity).
+          intros Hbd. specialize (IH Hbd). apply (nrm_prefix d) in IH.
+          destruct (par f' (hash_data (set_left s3 0) d) (a' ++ b)) as [[o' e'] sx']. destruct (read sx b false) as [[o2 e2] s2].
+          cbn [nrm] in IH |- *. rewrite <- app_assoc. exact IH.
+        * apply Z.ltb_ge in El. intros _. apply data_resume; [exact Hs3eof|exact El|rewrite app_length in Hf'; lia].
+      + destruct tr as [[ts ck]|]; cbn [apply_h Z.eqb].
+        all: match goal with |- context [final_part ?A ?g] => destruct (final_branch_terminal A g) as [o [e [sx [Hr Hne]]]]; rewrite Hr end.
+        all: destruct e; try (eexists; reflexivity); exfalso; apply Hne; reflexivity.
+    - unfold on_eof at 1. rewrite He1. cbv beta iota. intros Hb.
+      match type of Hb with (stash_len ?X <= 1024)%nat => set (sk := X) in * end.
+      assert (Hsk_eof : set_eof sk false = sk) by (apply set_eof_id; unfold sk, set_left, set_stash; proj; exact He1).
+      assert (Hsk_len : stash_len sk = List.length (st ++ a)) by reflexivity.
+      unfold SignedChunk.read. rewrite Hsk_eof. change (left sk) with 0%Z.
+      destruct b as [|x b'].
+      + rewrite app_nil_r, Eh. unfold on_eof. rewrite He1. cbn [List.length Z.of_nat Z.ltb Z.compare Z.sub nrm app]. do 2 f_equal.
+        unfold sk, hash_data, set_left, set_stash. proj. rewrite !app_nil_r. reflexivity.
+      + replace (0 <? Z.of_nat (List.length (x :: b')))%Z with true by (symmetry; apply Z.ltb_lt; cbn [List.length]; lia).
+        cbn [Z.to_nat firstn skipn Z.ltb Z.compare app]. rewrite par_S. unfold par_body.
+        rewrite (pending_nil sk) by (unfold sk, set_left, set_stash; proj; exact Hps). cbn [negb].
+        rewrite parse_header_h. rewrite Hsk_len. replace (Nat.ltb 1024 (List.length (st ++ a))) with false by (symmetry; apply Nat.ltb_ge; rewrite <- Hsk_len; exact Hb).
+        change (stash_bytes sk) with (st ++ a). change (firstHdr sk) with (firstHdr s1).
+        destruct (hparse (firstHdr s1) ((st ++ a) ++ x :: b')) as [r|] eqn:E2.
+        * destruct r as [e|sz sg k|sg tr k].
+          -- cbn [apply_h nrm]. destruct e; try reflexivity. exfalso. exact (hparse_err_some _ _ _ E2 eq_refl).
+          -- cbn [apply_h].
+             destruct (hparse_data_inv _ _ _ _ _ E2) as [a1 [r1 [Heq [Hk [_ [_ [Hneg [Hz _]]]]]]]].
+             pose proof (hparse_none_data_len _ _ _ _ _ _ Eh E2) as Hlt.
+             assert (Hkle : (k <= List.length st + List.length a + List.length (x :: b'))%nat) by (rewrite <- !app_length, Heq, app_length, <- Hk; lia).
+             rewrite Hz. change (stash_len s1) with (List.length st) in *. rewrite app_length in Hlt.
+             set (bb := x :: b') in *.
+             assert (Hbf : (List.length bb <= f')%nat) by (rewrite app_length in Hf'; lia).
+             replace ((Z.of_nat k - Z.of_nat (List.length st) <? 0)%Z || (Z.of_nat (List.length (a ++ bb)) <? Z.of_nat k - Z.of_nat (List.length st))%Z) with false
+               by (symmetry; apply orb_false_intro; apply Z.ltb_ge; rewrite ?app_length; lia).
+             replace ((Z.of_nat k - Z.of_nat (List.length (st ++ a)) <? 0)%Z || (Z.of_nat (List.length bb) <? Z.of_nat k - Z.of_nat (List.length (st ++ a)))%Z) with false
+               by (symmetry; apply orb_false_intro; apply Z.ltb_ge; rewrite ?app_length; lia).
+             rewrite skipn_app_ge by lia.
+             replace (Z.to_nat (Z.of_nat k - Z.of_nat (List.length st)) - List.length a)%nat with (Z.to_nat (Z.of_nat k - Z.of_nat (List.length (st ++ a)))) by (rewrite app_length; lia).
+             set (D := skipn (Z.to_nat (Z.of_nat k - Z.of_nat (List.length (st ++ a)))) bb).
+             apply Z.ltb_ge in Hneg. apply Z.eqb_neq in Hz.
+             match goal with |- nrm (data_part _ ?S3 _ _) = nrm ?R => match R with context [data_part _ ?S3' _ _] =>
+               replace S3' with (set_left S3 0) by reflexivity; rewrite data_part_left;
+               rewrite (data_part_fuel (List.length bb) f' S3 sz D) end end.
+             ++ destruct (data_part (par f') _ sz D) as [[o e] sx]. cbn [nrm app]. reflexivity.
+             ++ lia.
+             ++ unfold D. rewrite skipn_length. lia.
+             ++ unfold D. rewrite skipn_length. lia.
+          -- destruct tr as [[ts ck]|]; cbn [apply_h Z.eqb].
+             all: match goal with |- nrm (final_part ?A ?g) = nrm ?R => match R with context [final_part ?A' g] =>
+                    replace A' with (set_left A 0) by reflexivity; pose proof (final_part_left A g 0) as Hfl;
+                    destruct (final_part (set_left A 0) g) as [[o e] sx]; destruct (final_part A g) as [[o' e'] sx'] end end.
+             all: cbn [nrm app] in *; inversion Hfl; subst; reflexivity.
+        * unfold on_eof. rewrite He1. change (isEOF sk) with (isEOF s1). rewrite He1. cbn [nrm app]. do 2 f_equal.
   Qed.
 
   (* ---------- 4. valid streams: the encoder the reader is the inverse of *)
@@ -712,7 +823,7 @@ Section Frag.
         destruct Hfin as [Ha0 Hp0].
         rewrite (hparse_fhdr first a0 (csig prev []) (ck_of total) (tsig_of (csig prev []) total) rest Ha0 Hp0 (Hhex13 _)).
         2: { intros t Et. destruct (Htr t Et) as [H1 H2]. unfold ck_of, tsig_of. rewrite Et. repeat split; try assumption. apply Hhex13. }
-        unfold tsig_of, ck_of. destruct trailer as [t|]; cbn [apply_h Z.eqb]; unfold SignedChunk.check_sig, reset_hash, set_parsed, set_stash;
+        unfold tsig_of, ck_of, final_part. destruct trailer as [t|]; cbn [apply_h Z.eqb]; unfold SignedChunk.check_sig, reset_hash, set_parsed, set_stash;
           cbn [stash left prevSig parsedSig hbuf cbuf firstHdr isEOF trailerSig parsedChecksum];
           rewrite ?Hprev, ?Hcb, ?beq_refl; cbn [negb]; rewrite ?beq_refl; cbn [negb]; eexists; reflexivity.
       - cbn [enc concat map snd] in *. inversion Hwf as [|c cs' [Ha [Hp Hd]] Hwf']; subst c cs'. cbn [fst snd] in Ha, Hp, Hd.
@@ -726,7 +837,7 @@ Section Frag.
         assert (Hlenp : List.length (dhdr first a sig ++ d ++ E ++ rest) = (L + List.length (d ++ E ++ rest))%nat) by (rewrite app_length; reflexivity).
         rewrite Hlenp. replace ((Z.of_nat L <? 0)%Z || (Z.of_nat (L + List.length (d ++ E ++ rest)) <? Z.of_nat L)%Z) with false
           by (symmetry; apply orb_false_intro; apply Z.ltb_ge; lia).
-        rewrite Nat2Z.id. unfold L. rewrite skipn_len_app.
+        rewrite Nat2Z.id. unfold L. rewrite skipn_len_app. unfold data_part.
         assert (Hne : List.length (E ++ rest) <> O).
         { pose proof (enc_nonempty cs false sig (pay ++ d) a0 rest) as Hn. fold E in Hn. destruct (E ++ rest); [exfalso; apply Hn; reflexivity|discriminate]. }
         replace (Z.of_nat (List.length d) <? Z.of_nat (List.length (d ++ E ++ rest)))%Z with true by (symmetry; apply Z.ltb_lt; rewrite app_length; lia).
